@@ -59,20 +59,12 @@ func VerifH_timeout() {
 		vfCover("accepted")
 		return
 	}
-	// sign-prefixed values are unspecified; everything else with a non-digit must be rejected
+	// TimeoutValue is "a positive integer as ASCII string of at most 8 digits" (gRPC over HTTP/2): a
+	// sign is not a digit; "-5S" would hand the handler a deadline in the past, "+5S" is a shape no
+	// conforming client sends. Everything with a non-digit must be rejected.
 	signed := (s[0] == '+' || s[0] == '-') && n >= 3
 	if signed {
-		rest := true
-		for i := 1; i < n-1; i++ {
-			if s[i] < '0' || s[i] > '9' {
-				rest = false
-				break
-			}
-		}
-		if rest {
-			vfCover("signed-unspecified")
-			return
-		}
+		vfCover("signed")
 	}
 	vfCheck(err != nil, "timeout with a non-digit value accepted")
 	vfCover("rejected-nondigit")
